@@ -199,9 +199,14 @@ def run_case(case):
         drain = case.get("drain") or "serviceAllTx"      # the greedy and the one-step service paths must both drain
         for _ in range(bound):
             getattr(m, drain)()
-        pend = m.txbs[1] is not None and len(m.txbs[0]) > 0
-        if not r.failures and (model.head < len(model.queued) or m.txgs or pend):
-            if model.remaining is not None and not m.txgs and model.head == len(model.queued) - 1:
+        # judged from what the transport was offered (the model), not from the memoer's internal buffers: every queued gram
+        # must have been fully sent or dropped as unreachable
+        try:
+            ntxgs, txbs0, txbs1 = len(m.txgs), len(m.txbs[0]), m.txbs[1]
+        except Exception:      # noqa: BLE001 - internal representation is the implementation's business
+            ntxgs, txbs0, txbs1 = -1, -1, "?"
+        if not r.failures and (model.head < len(model.queued) or model.remaining is not None):
+            if model.remaining is not None and model.head == len(model.queued) - 1:
                 sig = "C21/not-drained(remainder of the last gram never offered again)"
             elif model.remaining is not None:
                 sig = "C21/not-drained(remainder stuck)"
@@ -209,8 +214,8 @@ def run_case(case):
                 sig = "C21/not-drained"
             r.fail(sig, "after %d greedy service calls on a healthy transport: %d of %d queued grams done, model remainder %r, "
                    "txgs=%d txbs=(%d bytes, %r)" % (bound, model.head, len(model.queued),
-                                                   None if model.remaining is None else len(model.remaining), len(m.txgs),
-                                                   len(m.txbs[0]), m.txbs[1]))
+                                                   None if model.remaining is None else len(model.remaining), ntxgs,
+                                                   txbs0, txbs1))
     r.nontrivial = model.zero_fresh and model.partial
     r.labels.append("transport:%s-peer" % case["transport"] if udp else "transport:scripted-memoer")
     if model.zero_fresh:
